@@ -124,6 +124,13 @@ class FuncFacts:
             if e.kind == "table_remove":
                 if e.how in ("del", "pop") and e.value is not None:
                     idx = e.value
+                    if e.how == "pop" and isinstance(e.stmt, ast.Assign) and len(e.stmt.targets) == 1 and isinstance(e.stmt.targets[0], ast.Name) and e.stmt.value is e.call:
+                        # removed = table.pop(i): the local IS the removed entry
+                        self.entry_names[e.stmt.targets[0].id] = ("elem", "pop", idx)
+                        e.index = idx
+                        e.value = N(e.stmt.targets[0].id)
+                        e.by_index = False
+                        continue
                     ent = next((nm for nm, info in self.entry_names.items() if info[0] == "elem" and info[2] is not None and norm(info[2]) == norm(idx)
                                 and info[1] in ("next", "subscript")), None)
                     e.index = idx
@@ -134,6 +141,12 @@ class FuncFacts:
                         e.by_index = True
                 else:
                     e.by_index = False
+                    # table.remove(table[i]) where a local names that element: the local is the removed entry
+                    if isinstance(e.value, ast.Subscript) and self.ct.is_entries(e.value.value):
+                        ent = next((nm for nm, info in self.entry_names.items() if info[0] == "elem" and info[2] is not None and norm(info[2]) == norm(e.value.slice)
+                                    and info[1] in ("next", "subscript")), None)
+                        if ent is not None:
+                            e.value = N(ent)
                     info = self.entry_names.get(e.value.id) if isinstance(e.value, ast.Name) else None
                     e.index = info[2] if info and info[0] == "elem" else None
         self.events.sort(key=lambda e: (getattr(e.stmt, "lineno", 0), getattr(e.call, "col_offset", 0) if e.call is not None else 0))
@@ -347,6 +360,11 @@ class Container:
                 t = n.targets[0] if isinstance(n, ast.Assign) else n.target
                 if isinstance(v, ast.Call) and isinstance(v.func, ast.Attribute) and v.func.attr == "open" and is_self_attr(t):
                     return t.attr
+                # self.handler = h  where  h = <path>.open(..)
+                if isinstance(v, ast.Name) and is_self_attr(t):
+                    defs = [m for m in walk_no_nested(enter.node) if isinstance(m, ast.Assign) and len(m.targets) == 1 and isinstance(m.targets[0], ast.Name) and m.targets[0].id == v.id]
+                    if len(defs) == 1 and isinstance(defs[0].value, ast.Call) and isinstance(defs[0].value.func, ast.Attribute) and defs[0].value.func.attr == "open":
+                        return t.attr
         raise AnalysisError("anchor vanished: Tdf.__enter__ no longer assigns the handle from <path>.open(...)")
 
     def _entries_attr(self):
